@@ -68,9 +68,30 @@ def opParse (s : Str) : String :=
   | .ok (d, rest) => s!"ok rest={e rest} {dumpDoc d}"
   | .error x => s!"err:{errClass x}"
 
+/-- outcome class only: ok | rest | err -/
+def opAccept (which : String) (s : Str) : String :=
+  match (if which == "spec" then parseDocSpec s else if which == "strict" then parseDocStrictOnly s else parseDoc s) with
+  | .ok (_, []) => "ok"
+  | .ok (_, _) => "rest"
+  | .error .fuel => "fuel"
+  | .error .shape => "shape"
+  | .error _ => "err"
+
 def opPrint (s : Str) : String :=
   match parseDoc s with
   | .ok (d, _) => s!"ok {e (printDoc d)}"
   | .error x => s!"err:{errClass x}"
+
+def opRoundtrip (s : Str) : String :=
+  match parseDoc s with
+  | .error x => s!"err:{errClass x}"
+  | .ok (d1, _) =>
+    let s1 := printDoc d1
+    match parseDoc s1 with
+    | .error x => s!"reparse-err:{errClass x} {e s1}"
+    | .ok (d2, rest2) =>
+      let same := dumpDoc d1 == dumpDoc d2
+      let fix := printDoc d2 == s1
+      s!"ok rest2={e rest2} same={if same then 1 else 0} eq={if same then 1 else 0} fix={if fix then 1 else 0}"
 
 end Driver
